@@ -83,8 +83,9 @@ class CtlGen:
     comparisons on the arguments; loops are `while ext(k)` or `for i in range(n)`.
     """
 
-    def __init__(self, ch, max_compounds=2, max_depth=2, max_term=2, arg_tests=False, seq=True, pass_bodies=False, kinds=None):
+    def __init__(self, ch, max_compounds=2, max_depth=2, max_term=2, arg_tests=False, seq=True, pass_bodies=False, kinds=None, trail="always"):
         self.ch = ch
+        self.trail = trail  # marker statement after a compound: "always" | "never" (a loop / if may END an arm) | "choose"
         self.kinds = kinds or KINDS
         self.pass_bodies = pass_bodies
         self.compounds = max_compounds
@@ -163,7 +164,8 @@ class CtlGen:
             if not go:
                 break
             out += self.compound(ind, depth, inloop)
-            out += self.marker(ind)
+            if self.trail == "always" or (self.trail == "choose" and self.ch.choose(2)):
+                out += self.marker(ind)
             ncomp += 1
         if self.terms > 0 and depth > 0:
             opts = ["none", "return"] + (["break", "continue"] if inloop else [])
